@@ -311,7 +311,7 @@ func TestProp_C12_deep(t *testing.T) {
 
 func TestProp_C07_deep(t *testing.T) {
 	col := evid.For("C07", "deep", deepDesc+"with 0..3 stale forks and subscribers registered at drawn steps: subscriber-side reconstruction as in the stream leg, including reorganisations to a stale fork across the retained depth (the announced headers start right above a fork point that is served from storage); non-trivial = a subscriber saw a reorganisation")
-	w := map[string]int{"extend": 6, "clean": 2, "staleOvertake": 3, "reload": 1, "subscribe": 2, "dup": 1, "late": 1, "bulk": 1, "align": 2}
+	w := map[string]int{"extend": 6, "clean": 1, "staleOvertake": 2, "reload": 1, "subscribe": 4, "dup": 1, "late": 1, "bulk": 1, "align": 4}
 	rapid.Check(t, func(t *rapid.T) {
 		runHistory(t, col, Focus{ID: "C07", RealDepth: true, Stream: true}, w, func(m *M) bool {
 			return m.subsCount > 0 && m.reorgs > 0
